@@ -1080,6 +1080,12 @@ class Unit:
                     text = re.sub(r'(?<![\w:])Ordering::(Relaxed|SeqCst)', r'atomic_ordering::Ordering::\1', text)
                     self.log.add('R20(io::Error message/kind tests -> stand-in predicates)', site, n20 + n20b)
                     continue
+                if r == 'R30':
+                    text, n30 = re.subn(r"(\w+)\.splitn\((\w+),\s*\|b\|\s*\*b\s*==\s*(b'.')\)", r'v_splitn(\1, \2, \3)', text)
+                    text, n30b = re.subn(r"(\w+)\.split\(\|b\|\s*\*b\s*==\s*(b'.')\)", r'v_split(\1, \2)', text)
+                    text, n30c = re.subn(r'std::str::from_utf8\(', 'v_from_utf8(', text)
+                    self.log.add('R30(slice split/splitn on a byte, str::from_utf8 -> trusted stand-ins)', site, n30 + n30b + n30c)
+                    continue
                 if r == 'R28':
                     text, n28 = re.subn(r'unsafe\s*\{\s*String::from_utf8_unchecked\((\w+)\)\s*\}', r'v_string_from_utf8_unchecked(\1)', text)
                     self.log.add('R28(String::from_utf8_unchecked -> trusted stand-in)', site, n28)
@@ -1142,7 +1148,7 @@ class Unit:
             # pre/postcondition alone (no loop contracts, no hints).  Otherwise the loss is reported (undecided).
             c2 = Contract(c.file, c.path, ret=c.ret, requires=c.requires, ensures=c.ensures, decreases=c.decreases,
                           ghostparams=c.ghostparams, ghostargs=c.ghostargs, attrs=c.attrs,
-                          rewrites=[r for r in c.rewrites if r in ('R5', 'R20', 'R21', 'R23', 'R28') or r.startswith('R17') or r.startswith('R29')])
+                          rewrites=[r for r in c.rewrites if r in ('R5', 'R20', 'R21', 'R23', 'R28', 'R30') or r.startswith('R17') or r.startswith('R29')])
             c2.ats = [a for a in c.ats if a[0] == 'fn_start' and 'let ghost' not in a[2]]
             text = self.apply_rewrites(raw, site, c2)
             _, loops = find_loops(split_fn(text)[1])
